@@ -362,6 +362,15 @@ pub fn bytes_from_gen(gen: &Value) -> Vec<u8> {
             let value = format!("bytes={}", vec![spec; k].join(","));
             crate::drive::request_bytes("GET", gen["target"].as_str().unwrap_or("/file.txt"), "HTTP/1.1", &[("Range", &value)], b"")
         }
+        "multipart-parts" => {
+            // k minimal parts, bare-LF framing as small as the reader accepts
+            let k = gen["k"].as_u64().unwrap_or(1) as usize;
+            let mut body = b"b\n".to_vec();
+            for _ in 0..k {
+                body.extend_from_slice(b"a: b\n\nv\nb\n");
+            }
+            crate::drive::request_bytes("POST", "/form-multipart-enctype-post-method", "HTTP/1.1", &[("Content-Type", "multipart/form-data; boundary=b")], &body)
+        }
         "fill" => {
             // a valid request padded with a header value so that it is exactly `len` bytes
             let len = gen["len"].as_u64().unwrap_or(0) as usize;
@@ -385,6 +394,7 @@ pub fn case_from_json(v: &Value) -> Case {
         "form-byte" => "form-byte",
         "fill" => "fill",
         "many-ranges" => "many-ranges",
+        "multipart-parts" => "multipart-parts",
         "transport-read" => "transport-read",
         "app" => "app",
         _ => "raw",
@@ -514,6 +524,24 @@ pub fn for_each_opt(thorough: bool, pairs: bool, f: &mut dyn FnMut(Case)) {
                     f(Case { family: "many-ranges", gen: gen.clone(), bytes: bytes.clone(), entry: e, app: AppKind::Shipped, read: ReadKind::Full, request_size: 10000 });
                 }
             }
+        }
+    }
+    // 6c. many multipart parts in one request (one recursion level per part?), several buffer sizes
+    for (size, kmax) in [(10000i64, 1000usize), (16000, 1600), (1_000_000, if thorough { 100_000 } else { 30_000 })] {
+        let mut ks: Vec<usize> = vec![1, 2, 3];
+        let mut p = 4;
+        while p < kmax {
+            ks.push(p);
+            p *= 2;
+        }
+        ks.push(kmax);
+        for k in ks {
+            let gen = json!({"kind":"multipart-parts","k":k});
+            let bytes = bytes_from_gen(&gen);
+            if bytes.len() as i64 > size {
+                continue;
+            }
+            f(Case { family: "multipart-parts", gen, bytes, entry: Entry::Process, app: AppKind::Shipped, read: ReadKind::Full, request_size: size });
         }
     }
     // 7. requests around the buffer size
